@@ -132,7 +132,9 @@ def wellformed(a):
     if t in (API.Forward, API.Reverse):
         n0, n1 = int(a.n0), int(a.n1)
         try:
-            if len(a) != n1 - n0:
+            # Python's len() cannot return more than sys.maxsize: the law is
+            # only meaningful (and only demanded) for spans up to that size
+            if n1 - n0 <= sys.maxsize and len(a) != n1 - n0:
                 out.append(("len", f"len={len(a)} for [{n0},{n1})"))
             got = list(itertools.islice(iter(a), 40))
             if t is API.Forward:
@@ -310,6 +312,10 @@ def check(prop, tier):
                                f"[{f['code']}] {f['msg']}", rp)
     pair_laws(res)
     alphabet_objects_laws(res)
+    # actions emitted along unusual call sequences (several next() before
+    # finalize, rejected finalize calls, ...): the API-history graph of E4
+    from . import props_hist
+    props_hist.run_histories(res, prop, tier)
     res.cov["distinct_nontrivial"] = nontriv
     res.cov["rule"] = ("every action emitted by every configuration of the box "
                        "(distinct (kind,args) per stream counted) plus all "
